@@ -54,11 +54,16 @@ def parseFloatModel (s : String) : FloatRes :=
     let d : Nat := digitsVal (ip ++ fp)
     if d == 0 then .ok 0 else
     let ds := match ex with | some (_, ds) => ds.dropWhile (· == '0') | none => []
-    if ds.length > 3 then .unmodelled else
-    let e : Int := match ex with
-      | some (eneg, _) => if eneg then -(digitsVal ds : Int) else digitsVal ds
-      | none => 0
+    let eneg := match ex with | some (eneg, _) => eneg | none => false
+    -- a value that rounds to ±Inf is a range error of strconv.ParseFloat, i.e. ErrorInvalidArgument:
+    -- everything ≥ 2^1024 − 2^970 (half an ulp above MaxFloat64)
+    if ds.length > 4 && !eneg then .err else
+    if ds.length > 3 && eneg then .unmodelled else
+    let e : Int := if eneg then -(digitsVal ds : Int) else digitsVal ds
     let e' : Int := e - fp.length
+    let infBound : Nat := 2 ^ 1024 - 2 ^ 970
+    if e' ≥ 0 && (e' > 400 || d * 10 ^ e'.toNat ≥ infBound) then .err else
+    if e' < 0 && (-e').toNat ≤ 400 && d ≥ infBound * 10 ^ (-e').toNat then .err else
     let v? : Option Nat :=
       if e' ≥ 0 then (if e' > 20 then none else some (d * 10 ^ e'.toNat))
       else
